@@ -1,4 +1,5 @@
 import GlareModel.Core.Sem
+import GlareModel.Core.CaseExpr
 
 /-! # C05 — Scalar operators follow their definition on all values, whatever the vector shape
 
@@ -83,5 +84,184 @@ theorem kleene_tables :
 
 example : binaryExec (· + ·) (⟨[10, 20], [true, false, true], [0, 1, 1]⟩ : Vec Nat) ⟨[5], [true, true, true], [0, 0, 0]⟩ [0, 1, 2]
     = [some 15, none, some 25] := by decide
+
+end GlareModel.Props.C05
+
+/-! ## CASE: nested selections and scatter (Core/CaseExpr.lean) -/
+
+namespace GlareModel.Props.C05
+open GlareModel.CaseExpr
+universe u v
+variable {ρ : Type u} {β : Type v}
+
+theorem scatter_length (out : List (Option β)) (ws : List (Nat × β)) : (scatter out ws).length = out.length := by
+  unfold scatter
+  induction ws generalizing out with
+  | nil => rfl
+  | cons w ws ih => simp [ih]
+
+/-- A position that is not written keeps its value. -/
+theorem scatter_getD_of_not_mem (out : List (Option β)) (ws : List (Nat × β)) (i : Nat) (h : ∀ w ∈ ws, w.1 ≠ i) :
+    (scatter out ws).getD i none = out.getD i none := by
+  unfold scatter
+  induction ws generalizing out with
+  | nil => rfl
+  | cons w ws ih =>
+    simp only [List.foldl_cons]
+    rw [ih _ (fun x hx => h x (List.mem_cons_of_mem _ hx))]
+    have hne : w.1 ≠ i := h w (List.mem_cons_self ..)
+    simp [List.getD_eq_getElem?_getD, List.getElem?_set_ne hne]
+
+/-- A position written exactly once (positions are distinct) holds the written value. -/
+theorem scatter_getD_of_mem (out : List (Option β)) (ws : List (Nat × β)) (i : Nat) (v : β) (hi : i < out.length)
+    (hmem : (i, v) ∈ ws) (hnd : (ws.map (·.1)).Nodup) : (scatter out ws).getD i none = some v := by
+  induction ws generalizing out with
+  | nil => simp at hmem
+  | cons w ws ih =>
+    have hnd' : w.1 ∉ ws.map (·.1) ∧ (ws.map (·.1)).Nodup := by
+      rw [List.map_cons] at hnd
+      exact List.nodup_cons.mp hnd
+    unfold scatter
+    simp only [List.foldl_cons]
+    rcases List.mem_cons.mp hmem with h1 | h2
+    · -- written now, never overwritten later
+      have hw : w.1 = i := by rw [← h1]
+      have hv : w.2 = v := by rw [← h1]
+      have hrest : ∀ x ∈ ws, x.1 ≠ i := by
+        intro x hx he
+        apply hnd'.1
+        rw [hw, ← he]
+        exact List.mem_map.mpr ⟨x, hx, rfl⟩
+      have := scatter_getD_of_not_mem (out.set w.1 (some w.2)) ws i hrest
+      unfold scatter at this
+      rw [this, hw, hv]
+      simp [List.getD_eq_getElem?_getD, hi]
+    · have := ih (out.set w.1 (some w.2)) (by simpa using hi) h2 hnd'.2
+      unfold scatter at this
+      exact this
+
+theorem evalLoop_length (els : ρ → β) (arms : List (Arm ρ β)) (cur : List (Nat × ρ)) (out : List (Option β)) :
+    (evalLoop els arms cur out).length = out.length := by
+  induction arms generalizing cur out with
+  | nil => simp [evalLoop, scatter_length]
+  | cons a rest ih => simp [evalLoop, ih, scatter_length]
+
+theorem nodup_map_filter {γ : Type u} (l : List (Nat × γ)) (p : Nat × γ → Bool) (h : (l.map (·.1)).Nodup) :
+    ((l.filter p).map (·.1)).Nodup :=
+  List.Nodup.sublist (List.Sublist.map _ List.filter_sublist) h
+
+theorem nodup_map_inj {γ : Type u} (l : List (Nat × γ)) (h : (l.map (·.1)).Nodup) (a b : Nat × γ)
+    (ha : a ∈ l) (hb : b ∈ l) (he : a.1 = b.1) : a = b := by
+  induction l with
+  | nil => simp at ha
+  | cons x xs ih =>
+    rw [List.map_cons] at h
+    obtain ⟨hx, hxs⟩ := List.nodup_cons.mp h
+    rcases List.mem_cons.mp ha with h1 | h1 <;> rcases List.mem_cons.mp hb with h2 | h2
+    · rw [h1, h2]
+    · exfalso; apply hx; rw [← h1, he]; exact List.mem_map.mpr ⟨b, h2, rfl⟩
+    · exfalso; apply hx; rw [← h2, ← he]; exact List.mem_map.mpr ⟨a, h1, rfl⟩
+    · exact ih hxs h1 h2
+
+/-- The loop invariant: every row still in `cur` ends up with the value the specification gives
+it for the remaining arms; every other output position is left alone. -/
+theorem evalLoop_spec (els : ρ → β) (arms : List (Arm ρ β)) (cur : List (Nat × ρ)) (out : List (Option β))
+    (hnd : (cur.map (·.1)).Nodup) (hlt : ∀ p ∈ cur, p.1 < out.length) :
+    (∀ p ∈ cur, (evalLoop els arms cur out).getD p.1 none = some (spec arms els p.2)) ∧
+    (∀ i, (∀ p ∈ cur, p.1 ≠ i) → (evalLoop els arms cur out).getD i none = out.getD i none) := by
+  induction arms generalizing cur out with
+  | nil =>
+    simp only [evalLoop, spec]
+    refine ⟨?_, ?_⟩
+    · intro p hp
+      apply scatter_getD_of_mem _ _ _ _ (hlt p hp)
+      · exact List.mem_map.mpr ⟨p, hp, rfl⟩
+      · rw [List.map_map]; exact hnd
+    · intro i hi
+      apply scatter_getD_of_not_mem
+      intro w hw
+      obtain ⟨p, hp, rfl⟩ := List.mem_map.mp hw
+      exact hi p hp
+  | cons a rest ih =>
+    simp only [evalLoop]
+    have hfall_nd := nodup_map_filter cur (fun p => !(a.cond p.2 == some true)) hnd
+    have htaken_nd := nodup_map_filter cur (fun p => a.cond p.2 == some true) hnd
+    have hlen : ∀ ws : List (Nat × β), (scatter out ws).length = out.length := scatter_length out
+    have hfall_lt : ∀ p ∈ cur.filter (fun p => !(a.cond p.2 == some true)),
+        p.1 < (scatter out ((cur.filter fun p => a.cond p.2 == some true).map fun p => (p.1, a.val p.2))).length := by
+      intro p hp
+      rw [hlen]
+      exact hlt p (List.mem_filter.mp hp).1
+    obtain ⟨ih1, ih2⟩ := ih _ _ hfall_nd hfall_lt
+    refine ⟨?_, ?_⟩
+    · intro p hp
+      by_cases hc : a.cond p.2 = some true
+      · -- taken by this arm: written now, untouched by the rest of the loop
+        have hnotfall : ∀ q ∈ cur.filter (fun p => !(a.cond p.2 == some true)), q.1 ≠ p.1 := by
+          intro q hq he
+          have hqc := List.mem_filter.mp hq
+          -- positions are distinct, so q = p, but q falls through and p does not
+          have : q = p := nodup_map_inj cur hnd q p hqc.1 hp he
+          rw [this] at hqc
+          simp [hc] at hqc
+        rw [ih2 p.1 hnotfall, spec, if_pos hc]
+        apply scatter_getD_of_mem _ _ _ _ (hlt p hp)
+        · exact List.mem_map.mpr ⟨p, List.mem_filter.mpr ⟨hp, by simp [hc]⟩, rfl⟩
+        · rw [List.map_map]; exact htaken_nd
+      · have hpf : p ∈ cur.filter (fun p => !(a.cond p.2 == some true)) :=
+          List.mem_filter.mpr ⟨hp, by simp [hc]⟩
+        rw [ih1 p hpf, spec, if_neg hc]
+    · intro i hi
+      rw [ih2 i (fun q hq => hi q (List.mem_filter.mp hq).1)]
+      apply scatter_getD_of_not_mem
+      intro w hw
+      obtain ⟨q, hq, rfl⟩ := List.mem_map.mp hw
+      exact hi q (List.mem_filter.mp hq).1
+
+/-- **CASE is a map of "first TRUE arm, else ELSE" over the selected rows**: for every list of arms,
+every batch, and every selection (any subset, any order, repeated rows) the dense output of the
+loop - nested selections, per-arm scatter - is `spec` applied to each selected row. In particular
+the result of a row does not depend on which other rows are selected (the property the F16 defect
+broke by scattering to physical row indices). -/
+theorem eval_spec [Inhabited ρ] (arms : List (Arm ρ β)) (els : ρ → β) (rows : List ρ) (sel : List Nat) :
+    eval arms els rows sel = sel.map fun r => some (spec arms els (rows.getD r default)) := by
+  unfold eval
+  have hfst : ((sel.zipIdx).map fun p => (p.2, rows.getD p.1 default)).map (·.1) = List.range sel.length := by
+    rw [List.map_map]
+    have : ((fun x : Nat × ρ => x.1) ∘ fun p : Nat × Nat => (p.2, rows.getD p.1 default)) = fun p => p.2 := rfl
+    rw [this, List.zipIdx_map_snd]
+    simp [List.range_eq_range']
+  have hnd : (((sel.zipIdx).map fun p => (p.2, rows.getD p.1 default)).map (·.1)).Nodup := by
+    rw [hfst]; exact List.nodup_range
+  have hlt : ∀ p ∈ (sel.zipIdx).map (fun p => (p.2, rows.getD p.1 default)), p.1 < (List.replicate sel.length (none : Option β)).length := by
+    intro p hp
+    have : p.1 ∈ List.range sel.length := by rw [← hfst]; exact List.mem_map.mpr ⟨p, hp, rfl⟩
+    simpa using this
+  obtain ⟨h1, _⟩ := evalLoop_spec els arms _ (List.replicate sel.length none) hnd hlt
+  apply List.ext_getElem
+  · simp [evalLoop_length]
+  · intro i hi1 hi2
+    have hi : i < sel.length := by simpa using hi2
+    have hmem : (i, rows.getD sel[i] default) ∈ (sel.zipIdx).map (fun p => (p.2, rows.getD p.1 default)) := by
+      apply List.mem_map.mpr
+      refine ⟨(sel[i], i), ?_, rfl⟩
+      rw [List.mem_zipIdx_iff_getElem?]
+      simp [hi]
+    have hlen : i < (evalLoop els arms ((sel.zipIdx).map fun p => (p.2, rows.getD p.1 default)) (List.replicate sel.length none)).length := by
+      simp [evalLoop_length, hi]
+    have hg := h1 _ hmem
+    rw [List.getD_eq_getElem?_getD, List.getElem?_eq_getElem hlen] at hg
+    simp only [Option.getD_some] at hg
+    simp only [List.getElem_map]
+    exact hg
+
+example : eval [⟨fun (r : Nat) => some (decide (r > 3)), fun r => r * 10⟩, ⟨fun r => if r = 2 then none else some (decide (r > 1)), fun r => r * 100⟩]
+    (fun r => 0 - r) [0, 1, 2, 3, 4, 5] [5, 2, 3, 0] = [some 50, some 0, some 300, some 0] := by decide
+
+/-- The pinned commit's scatter to physical row indices is wrong as soon as the selection is not the
+identity: rows 4 and 5 selected, the values land outside the two output slots. -/
+theorem pinned_case_scatter_wrong :
+    evalPinned [⟨fun (r : Nat) => some (decide (r > 4)), fun r => r * 10⟩] (fun r => r) [0, 1, 2, 3, 4, 5] [4, 5] = [none, none] ∧
+    eval [⟨fun (r : Nat) => some (decide (r > 4)), fun r => r * 10⟩] (fun r => r) [0, 1, 2, 3, 4, 5] [4, 5] = [some 4, some 50] := by decide
 
 end GlareModel.Props.C05
